@@ -63,7 +63,12 @@ func (cb *CircuitBreaker) IsOpen(endpointURL string) bool {
 			// check if it's been a long time, shouldn't have left you
 			// Without a dope beat to step to
 			lastAttempt := atomic.LoadInt64(&state.lastAttempt)
-			return time.Unix(0, lastAttempt).Add(time.Second).After(time.Now())
+			if time.Unix(0, lastAttempt).Add(time.Second).After(time.Now()) {
+				return true
+			}
+			// The previous probe is more than a second old and never reported back:
+			// hand the probe slot to exactly one caller, everybody else stays blocked
+			return !atomic.CompareAndSwapInt64(&state.lastAttempt, lastAttempt, now)
 		}
 		return true
 	}
